@@ -3,3 +3,6 @@ pub mod c16_paych;
 pub mod market;
 pub mod c09_datacap;
 pub mod c17_evm_diff;
+pub mod evmsys;
+pub mod c18_evm_total;
+pub mod c20_identity;
